@@ -368,7 +368,10 @@ def block_limit_rule(ctx, rule):
     ctx.analysed(f.path)
     sl = Slicer(f.body)
     fl = Flow(f.body)
-    defs = [(e, bb) for (proj, e, bb) in sl.var_defs().get("block_length", []) if proj == ""]
+    # the size local is whatever is handed to BlockDecoder::init as its byte size (named block_length today)
+    inits_ = call_sites(f, lambda p, c: p.endswith("BlockDecoder::init"))
+    BL = show(inits_[0].expr[2][3]) if inits_ and re.match(r"^\w+(~\d+)?$", show(inits_[0].expr[2][3])) else "block_length"
+    defs = [(e, bb) for (proj, e, bb) in sl.var_defs().get(BL, []) if proj == ""]
     if len(defs) < 2:
         raise model.AnchorMissing("push_to_block2: %d definitions of block_length" % len(defs))
     for e, bb in defs:
@@ -393,8 +396,8 @@ def block_limit_rule(ctx, rule):
     for blk in f.body.blocks:
         if blk.term.k == "switch":
             d = show(sl.x.operand(blk.term.discr), 200)
-            if re.search(r"self\.total_allocated_blocks_size \+ block_length\) > self\.max_size_allocated", d) or \
-                    re.search(r"self\.max_size_allocated < \(self\.total_allocated_blocks_size \+ block_length", d):
+            if re.search(r"self\.total_allocated_blocks_size \+ %s\) > self\.max_size_allocated" % re.escape(BL), d) or \
+                    re.search(r"self\.max_size_allocated < \(self\.total_allocated_blocks_size \+ %s" % re.escape(BL), d):
                 cmp_ok = True
     if cmp_ok:
         rule.ok("push_to_block2 limit test", "total_allocated_blocks_size + block_length > max_size_allocated", loc(f.sp))
@@ -407,7 +410,7 @@ def block_limit_rule(ctx, rule):
         v = a["value"]
         key = "%s updates total_allocated_blocks_size" % caller
         form, c0 = polarity.affine(v)
-        if caller == "push_to_block2" and form == {"self.total_allocated_blocks_size": 1, "block_length": 1} and c0 == 0:
+        if caller == "push_to_block2" and form == {"self.total_allocated_blocks_size": 1, BL: 1} and c0 == 0:
             rule.ok(key, "+= block_length", loc(a["sp"]))
         elif v[0] == "bin" and v[1].replace("WithOverflow", "").startswith("Sub") and show(v[2]) == "self.total_allocated_blocks_size" and re.search(r"block\)?\.block_size$|block_size$", show(v[3])):
             rule.ok(key, "-= block.block_size", loc(a["sp"]))
@@ -424,7 +427,7 @@ def block_limit_rule(ctx, rule):
             else:
                 rule.violation("BlockDecoder::init block_size", "block_size = %s, not the block_length that was accounted" % show(a["value"], 60), loc(a["sp"]))
     for s in call_sites(f, lambda p, c: p.endswith("BlockDecoder::init")):
-        if show(s.expr[2][3]) == "block_length":
+        if show(s.expr[2][3]) == BL:
             rule.ok("push_to_block2 -> BlockDecoder::init(block_length)", "", s.loc)
         else:
             rule.violation("push_to_block2 -> BlockDecoder::init(block_length)", "passes %s" % show(s.expr[2][3], 60), s.loc)
